@@ -51,8 +51,8 @@ Theorem bech32_detects_4 hrp s1 s2 p1 : bech32_decode hrp s1 = Ok p1 ->
   data_corrupted bech32_sep b32_window s1 s2 -> forall p2, bech32_decode hrp s2 <> Ok p2.
 Proof.
   intros D1 (h & t1 & t2 & E1 & E2 & Hsep & Hlen & HL & Hh) p2 D2.
-  apply bech32_decode_ok_iff in D1. destruct D1 as (_ & _ & syms1 & L1 & S1 & _ & V1 & _).
-  apply bech32_decode_ok_iff in D2. destruct D2 as (_ & _ & syms2 & L2 & S2 & _ & V2 & _).
+  apply bech32_decode_ok_iff in D1. destruct D1 as (_ & _ & _ & syms1 & L1 & S1 & _ & V1 & _).
+  apply bech32_decode_ok_iff in D2. destruct D2 as (_ & _ & _ & syms2 & L2 & S2 & _ & V2 & _).
   assert (Hs : ~ In bech32_sep bech32_charset) by (apply (sep_stable bech32_sep); left; reflexivity).
   rewrite L1 in E1. apply split_at_last in E1; [|apply (sep_not_in_syms bech32_charset bech32_sep Hs); exact S1|exact Hsep].
   destruct E1 as [<- <-]. rewrite L2 in E2. apply app_inv_head in E2. inversion E2 as [E2']. subst t2.
@@ -77,8 +77,8 @@ Theorem segwit_detects_4 hrp s1 s2 v1 p1 v2 p2 n : segwit_decode hrp s1 = Ok (v1
   data_corrupted segwit_sep n s1 s2 -> segwit_decode hrp s2 = Ok (v2, p2) -> (v1 =? 0) <> (v2 =? 0).
 Proof.
   intros D1 (h & t1 & t2 & E1 & E2 & Hsep & Hlen & _ & Hh) D2 Hv.
-  apply segwit_decode_ok_iff in D1. destruct D1 as (_ & _ & r1 & L1 & S1 & Hl1 & V1 & F1 & (Hp1 & _)).
-  apply segwit_decode_ok_iff in D2. destruct D2 as (_ & _ & r2 & L2 & S2 & _ & V2 & _).
+  apply segwit_decode_ok_iff in D1. destruct D1 as (_ & _ & _ & r1 & L1 & S1 & Hl1 & V1 & F1 & (Hp1 & _)).
+  apply segwit_decode_ok_iff in D2. destruct D2 as (_ & _ & _ & r2 & L2 & S2 & _ & V2 & _).
   assert (Hs : ~ In segwit_sep bech32_charset) by (apply (sep_stable segwit_sep); right; left; reflexivity).
   rewrite L1 in E1. apply split_at_last in E1; [|apply (sep_not_in_syms bech32_charset segwit_sep Hs); exact S1|exact Hsep].
   destruct E1 as [<- <-]. rewrite L2 in E2. apply app_inv_head in E2.
@@ -110,8 +110,8 @@ Proof.
   destruct (Bool.bool_dec (v1 =? 0) (v2 =? 0)) as [Hv|Hv].
   - exact (segwit_detects_4 hrp s1 s2 v1 p1 v2 p2 n D1 (data_corrupted_weaken 3 4 _ _ _ _ ltac:(lia) C) D2 Hv).
   - destruct C as (h & t1 & t2 & E1 & E2 & Hsep & Hlen & _ & Hh).
-    apply segwit_decode_ok_iff in D1. destruct D1 as (_ & _ & r1 & L1 & S1 & Hl1 & V1 & F1 & (_ & _ & Hz1)).
-    apply segwit_decode_ok_iff in D2. destruct D2 as (_ & _ & r2 & L2 & S2 & Hl2 & V2 & F2 & (_ & _ & Hz2)).
+    apply segwit_decode_ok_iff in D1. destruct D1 as (_ & _ & _ & r1 & L1 & S1 & Hl1 & V1 & F1 & (_ & _ & Hz1)).
+    apply segwit_decode_ok_iff in D2. destruct D2 as (_ & _ & _ & r2 & L2 & S2 & Hl2 & V2 & F2 & (_ & _ & Hz2)).
     assert (Hs : ~ In segwit_sep bech32_charset) by (apply (sep_stable segwit_sep); right; left; reflexivity).
     rewrite L1 in E1. apply split_at_last in E1; [|apply (sep_not_in_syms bech32_charset segwit_sep Hs); exact S1|exact Hsep].
     destruct E1 as [<- <-]. rewrite L2 in E2. apply app_inv_head in E2.
